@@ -703,6 +703,34 @@ def _ssa_toplevel(fn):
     return fn
 
 
+def _dict_store(st, dname):
+    """(store statement, filters) for ``D[K] = V`` or ``if P: D[K] = V`` (P not looking at D), else None"""
+    filters = []
+    if isinstance(st, ast.If) and not st.orelse and len(st.body) == 1 and not _count_loads(st.test, dname):
+        filters = [st.test]
+        st = st.body[0]
+    if isinstance(st, ast.Assign) and len(st.targets) == 1 and isinstance(st.targets[0], ast.Subscript) \
+            and isinstance(st.targets[0].value, ast.Name) and st.targets[0].value.id == dname:
+        return st, filters
+    return None
+
+
+def _pairs_iterable(e, root):
+    """certainly an iterable of (key, value) pairs: iteritems(..) / x.items() / a local bound to a list of 2-tuples"""
+    if isinstance(e, ast.Call) and ((isinstance(e.func, ast.Name) and e.func.id == "iteritems" and len(e.args) == 1)
+                                    or (isinstance(e.func, ast.Attribute) and e.func.attr == "items" and not e.args)):
+        return True
+    if isinstance(e, (ast.ListComp, ast.GeneratorExp)) and isinstance(e.elt, ast.Tuple) and len(e.elt.elts) == 2:
+        return True
+    if isinstance(e, ast.Call) and ast.unparse(e.func) in ("it.chain", "chain", "itertools.chain") and e.args and not e.keywords:
+        return all(_pairs_iterable(a, root) for a in e.args)
+    if isinstance(e, ast.Name) and root is not None:
+        defs = [n.value for n in ast.walk(root) if isinstance(n, ast.Assign)
+                and any(isinstance(t, ast.Name) and t.id == e.id for t in n.targets)]
+        return bool(defs) and all(_pairs_iterable(d, None) for d in defs)
+    return False
+
+
 def _norm_simple(stmts, ctx):
     """statement-local rewrites inside one block (no nesting changes)"""
     stmts = [s for s in stmts if not isinstance(s, ast.Pass)]
@@ -800,23 +828,50 @@ def _norm_simple(stmts, ctx):
                     and ((isinstance(st.value, ast.Call) and isinstance(st.value.func, ast.Name)
                           and st.value.func.id in ("OrderedDict", "dict") and not st.value.args and not st.value.keywords)
                          or (isinstance(st.value, ast.Dict) and not st.value.keys)) \
-                    and isinstance(nxt, ast.For) and not nxt.orelse and len(nxt.body) == 1 \
-                    and isinstance(nxt.body[0], ast.Assign) and len(nxt.body[0].targets) == 1 \
-                    and isinstance(nxt.body[0].targets[0], ast.Subscript) and isinstance(nxt.body[0].targets[0].value, ast.Name) \
-                    and nxt.body[0].targets[0].value.id == st.targets[0].id and not ctx.get("final"):
+                    and isinstance(nxt, ast.For) and not nxt.orelse and len(nxt.body) == 1 and not ctx.get("final") \
+                    and _dict_store(nxt.body[0], st.targets[0].id) is not None:
                 D_ = st.targets[0].id
-                K_, V_ = nxt.body[0].targets[0].slice, nxt.body[0].value
+                store_, dfilter = _dict_store(nxt.body[0], D_)
+                K_, V_ = store_.targets[0].slice, store_.value
                 tn_ = {n.id for n in ast.walk(nxt.target) if isinstance(n, ast.Name)}
                 if not _count_loads(K_, D_) and not _count_loads(V_, D_) and not _count_loads(nxt.iter, D_) \
                         and not any(n.id in tn_ for s_ in stmts[i + 2:] for n in _names(s_)) \
                         and not any(isinstance(n, (ast.Yield, ast.YieldFrom)) for n in ast.walk(nxt)):
                     gen = ast.GeneratorExp(elt=ast.Tuple(elts=[K_, V_], ctx=ast.Load()),
-                                           generators=[ast.comprehension(target=nxt.target, iter=nxt.iter, ifs=[], is_async=0)])
+                                           generators=[ast.comprehension(target=nxt.target, iter=nxt.iter, ifs=dfilter, is_async=0)])
                     ctor = st.value.func if isinstance(st.value, ast.Call) else ast.Name(id="dict", ctx=ast.Load())
                     out.append(ast.Assign(targets=st.targets, value=ast.Call(func=ctor, args=[gen], keywords=[]),
                                           lineno=st.lineno, col_offset=0))
                     changed = True
                     i += 2
+                    continue
+            # D = OrderedDict(X) ; D.update(Y) [; D.update(Z)]    ->    D = OrderedDict(it.chain(X, Y, Z))   (all of them pairs)
+            if isinstance(st, ast.Assign) and len(st.targets) == 1 and isinstance(st.targets[0], ast.Name) \
+                    and isinstance(st.value, ast.Call) and isinstance(st.value.func, ast.Name) \
+                    and st.value.func.id in ("OrderedDict", "dict") and len(st.value.args) == 1 and not st.value.keywords \
+                    and _pairs_iterable(st.value.args[0], ctx.get("root")) and not ctx.get("final"):
+                D_ = st.targets[0].id
+                a0_ = st.value.args[0]
+                parts = list(a0_.args) if isinstance(a0_, ast.Call) and ast.unparse(a0_.func) in ("it.chain", "chain", "itertools.chain") \
+                    else [a0_]
+                j = i + 1
+                while j < len(stmts):
+                    u = stmts[j]
+                    if isinstance(u, ast.Expr) and isinstance(u.value, ast.Call) and isinstance(u.value.func, ast.Attribute) \
+                            and u.value.func.attr == "update" and isinstance(u.value.func.value, ast.Name) \
+                            and u.value.func.value.id == D_ and len(u.value.args) == 1 and not u.value.keywords \
+                            and _pairs_iterable(u.value.args[0], ctx.get("root")) and not _count_loads(u.value.args[0], D_):
+                        parts.append(u.value.args[0])
+                        j += 1
+                    else:
+                        break
+                if j > i + 1:
+                    chain = ast.Call(func=ast.Attribute(value=ast.Name(id="it", ctx=ast.Load()), attr="chain", ctx=ast.Load()),
+                                     args=parts, keywords=[])
+                    out.append(ast.Assign(targets=st.targets, value=ast.Call(func=st.value.func, args=[chain], keywords=[]),
+                                          lineno=st.lineno, col_offset=0))
+                    changed = True
+                    i = j
                     continue
             # L.reverse() ; x = tuple(L)  (L dead afterwards)   ->   x = tuple(reversed(L))
             if isinstance(st, ast.Expr) and isinstance(st.value, ast.Call) and isinstance(st.value.func, ast.Attribute) \
@@ -2039,7 +2094,7 @@ def canonical_ast(fn, helpers, methods=None, hier=None, segment=False):
             break
     bound = frozenset(_bound(f))
     params = frozenset(_scope_params(f))
-    for _round in range(4):
+    for _round in range(8):
         before = ast.dump(f)
         bound = frozenset(_bound(f))
         f.body = _norm_region(f.body, None if segment else "func", {"bound": bound, "root": f, "defined": params})
